@@ -5,16 +5,303 @@ namespace MysticVerif.Config
 
 variable {R : Type} [Add R] [Sub R] [Mul R] [Neg R] [OfNat R 0] [OfNat R 1] [BEq R] [LT R] [DecidableLT R]
 
-/-- the state after `a` then `b` -/
-def apply2 (u : Nat → R) (s : Cfg R) (a b : Op R) : Cfg R := (apply u (apply u s a).1 b).1
+/-- independence of the method bodies alone (without the trailing `Finalize`) -/
+def OwnIndep (a b : Op R) : Bool :=
+  disj (writes a) (writes b) && disj (writes a) (reads b) && disj (writes b) (reads a)
 
-theorem commute_notPowell (u : Nat → R) (s : Cfg R) (a b : Op R) (hk : s.kind ≠ .powell)
-    (h : Independent false s.kind a b = true) :
-    apply2 u s a b = apply2 u s b a ∧ (apply u (apply u s a).1 b).2 = (apply u s b).2 := by
+/-- (A) method bodies with independent footprints commute, and whether one raises does not depend on the other -/
+theorem own_comm (u : Nat → R) (s : Cfg R) (a b : Op R) (h : OwnIndep a b = true) :
+    (own u (own u s a).1 b).1 = (own u (own u s b).1 a).1 ∧ (own u (own u s a).1 b).2 = (own u s b).2 := by
   cases a <;> cases b <;>
-  simp [Independent, writes, reads, fin, finFp, disj] at h <;>
-  simp [apply2, apply, Cfg.finalize, Cfg.setGenMon, Cfg.setEvalMon, Cfg.setStrictRanges, Cfg.setLimits,
-    Cfg.setRandom, Cfg.setInitial, Cfg.gens, Cfg.pl, hk, h]
+  first
+  | exact ⟨rfl, rfl⟩
+  | (exfalso; revert h; simp [OwnIndep, writes, reads, disj]; done)
+  | (simp [OwnIndep, writes, reads, disj] at h; subst h; exact ⟨rfl, rfl⟩)
 
+omit [Add R] [Sub R] [Mul R] [Neg R] [OfNat R 0] [OfNat R 1] [BEq R] [LT R] [DecidableLT R] in
+theorem disj_symm (a b : List Field) (h : disj a b = true) : disj b a = true := by
+  simp only [disj, List.all_eq_true, Bool.not_eq_true', List.contains_eq_mem, decide_eq_false_iff_not] at *
+  intro f hf hfa
+  exact h f hfa hf
+
+omit [Add R] [Sub R] [Mul R] [Neg R] [OfNat R 0] [OfNat R 1] [BEq R] [LT R] [DecidableLT R] in
+theorem ownIndep_symm (a b : Op R) (h : OwnIndep a b = true) : OwnIndep b a = true := by
+  simp only [OwnIndep, Bool.and_eq_true] at *
+  exact ⟨⟨disj_symm _ _ h.1.1, h.2⟩, h.1.2⟩
+
+/-- (B) `Finalize` commutes with a method body that neither reads nor writes what `Finalize` touches -/
+theorem own_finalize (u : Nat → R) (s : Cfg R) (b : Op R)
+    (h : disj (finFp s.pl) (writes b ++ reads b) = true) :
+    own u s.finalize b = ((own u s b).1.finalize, (own u s b).2) := by
+  unfold Cfg.finalize
+  cases hpl : s.pl <;> rw [hpl] at h <;> cases b <;>
+  first
+  | (exfalso; revert h; simp [finFp, writes, reads, disj]; done)
+  | (show own u (Cfg.finalizeWith _ s) _ = (Cfg.finalizeWith s.pl (own u s _).1, _)
+     rw [hpl]; rfl)
+  | (simp [finFp, writes, reads, disj] at h; subst h
+     show own u (Cfg.finalizeWith _ s) _ = (Cfg.finalizeWith s.pl (own u s _).1, _)
+     rw [hpl]; rfl)
+
+omit [Add R] [Sub R] [Mul R] [Neg R] [OfNat R 0] [OfNat R 1] [BEq R] [LT R] [DecidableLT R] in
+/-- (C) `Finalize` is idempotent -/
+theorem finalize_idem (s : Cfg R) : s.finalize.finalize = s.finalize := by
+  have h : s.finalize.pl = false := by simp [Cfg.pl, Cfg.finalize, Cfg.finalizeWith]
+  show Cfg.finalizeWith s.finalize.pl s.finalize = s.finalize
+  rw [h]
+  rfl
+
+omit [Add R] [Sub R] [Mul R] [Neg R] [OfNat R 0] [OfNat R 1] [BEq R] [LT R] [DecidableLT R] in
+theorem finalize_kind (s : Cfg R) : s.finalize.kind = s.kind := rfl
+
+/-- (D) no `Set*` changes the class of the solver, or makes a solver live -/
+theorem own_kind (u : Nat → R) (s : Cfg R) (a : Op R) : (own u s a).1.kind = s.kind := by
+  cases a <;> rfl
+
+theorem own_pl (u : Nat → R) (s : Cfg R) (a : Op R) (h : (own u s a).1.pl = true) : s.pl = true := by
+  cases a
+  case setObjective c =>
+    simp only [own, Cfg.pl, Bool.and_eq_true, decide_eq_true_eq] at h ⊢
+    split at h
+    · exact ⟨of_decide_eq_true h.1, h.2⟩
+    · simp at h
+  all_goals exact h
+
+omit [Add R] [Sub R] [Mul R] [Neg R] [OfNat R 0] [OfNat R 1] [BEq R] [LT R] [DecidableLT R] in
+theorem finFp_mono (pl : Bool) (x : List Field) (h : disj (finFp true) x = true) : disj (finFp pl) x = true := by
+  cases pl
+  · simp only [disj, finFp, List.all_eq_true] at *
+    intro f hf
+    apply h
+    simp at hf ⊢
+    left; exact hf
+  · exact h
+
+/-! ### assembling: `apply` = stub test, method body, optional `Finalize` -/
+
+theorem apply_eq (u : Nat → R) (t : Cfg R) (k : Kind) (hk : t.kind = k) (op : Op R) :
+    apply u t op = if blocked k op = true then (t, true)
+      else if (fin k op && !(own u t op).2) = true then ((own u t op).1.finalize, (own u t op).2)
+      else own u t op := by
+  subst hk; rfl
+
+theorem apply_kind (u : Nat → R) (s : Cfg R) (op : Op R) : (apply u s op).1.kind = s.kind := by
+  unfold apply
+  split
+  · rfl
+  · split
+    · exact own_kind u s op
+    · exact own_kind u s op
+
+theorem apply_pl (u : Nat → R) (s : Cfg R) (op : Op R) (h : (apply u s op).1.pl = true) : s.pl = true := by
+  unfold apply at h
+  split at h
+  · exact h
+  · split at h
+    · simp [Cfg.pl, Cfg.finalize, Cfg.finalizeWith] at h
+    · exact own_pl u s op h
+
+omit [Add R] [Sub R] [Mul R] [Neg R] [OfNat R 0] [OfNat R 1] [BEq R] [LT R] [DecidableLT R] in
+theorem independent_symm (pl : Bool) (k : Kind) (a b : Op R) (h : Independent pl k a b = true) :
+    Independent pl k b a = true := by
+  simp only [Independent, Bool.and_eq_true] at *
+  obtain ⟨⟨⟨⟨h1, h2⟩, h3⟩, h4⟩, h5⟩ := h
+  exact ⟨⟨⟨⟨disj_symm _ _ h1, h3⟩, h2⟩, h5⟩, h4⟩
+
+omit [Add R] [Sub R] [Mul R] [Neg R] [OfNat R 0] [OfNat R 1] [BEq R] [LT R] [DecidableLT R] in
+theorem independent_mono (pl : Bool) (k : Kind) (a b : Op R) (h : Independent true k a b = true) :
+    Independent pl k a b = true := by
+  simp only [Independent, Bool.and_eq_true] at *
+  obtain ⟨⟨⟨⟨h1, h2⟩, h3⟩, h4⟩, h5⟩ := h
+  refine ⟨⟨⟨⟨h1, h2⟩, h3⟩, ?_⟩, ?_⟩
+  · split
+    · rename_i hf; rw [if_pos hf] at h4; exact finFp_mono pl _ h4
+    · rfl
+  · split
+    · rename_i hf; rw [if_pos hf] at h5; exact finFp_mono pl _ h5
+    · rfl
+
+/-- the footprint hypothesis about `Finalize`, transported to the state after another method body -/
+theorem finFp_after (u : Nat → R) (s : Cfg R) (a : Op R) (x : List Field)
+    (h : disj (finFp s.pl) x = true) : disj (finFp (own u s a).1.pl) x = true := by
+  cases hp : (own u s a).1.pl
+  · cases hs : s.pl
+    · rw [hs] at h; exact h
+    · rw [hs] at h; exact finFp_mono false _ h
+  · have := own_pl u s a hp
+    rw [this] at h; exact h
+
+/-- what a second call does after a first one, in terms of the method bodies -/
+theorem apply_after (u : Nat → R) (s : Cfg R) (a b : Op R)
+    (hown : OwnIndep a b = true)
+    (hfa : fin s.kind a = true → disj (finFp s.pl) (writes b ++ reads b) = true)
+    (hba : blocked s.kind a = false) (hbb : blocked s.kind b = false) :
+    (apply u (apply u s a).1 b).2 = (own u s b).2 ∧
+    (apply u (apply u s a).1 b).1 =
+      (if (fin s.kind a && !(own u s a).2) = true ∨ (fin s.kind b && !(own u s b).2) = true
+       then (own u (own u s a).1 b).1.finalize else (own u (own u s a).1 b).1) := by
+  obtain ⟨_, c2⟩ := own_comm u s a b hown
+  have nb : ¬ (blocked s.kind b = true) := by simp [hbb]
+  have na : ¬ (blocked s.kind a = true) := by simp [hba]
+  cases hfa' : (fin s.kind a && !(own u s a).2)
+  · -- `a` does not finalise
+    have ea : apply u s a = own u s a := by
+      rw [apply_eq u s s.kind rfl a, if_neg na, if_neg (by simp [hfa'])]
+    rw [ea, apply_eq u (own u s a).1 s.kind (own_kind u s a) b, if_neg nb, c2]
+    cases hfb' : (fin s.kind b && !(own u s b).2)
+    · simp [c2]
+    · simp
+  · -- `a` finalises
+    have hf : fin s.kind a = true := by
+      cases h : fin s.kind a
+      · simp [h] at hfa'
+      · rfl
+    have ea : apply u s a = ((own u s a).1.finalize, (own u s a).2) := by
+      rw [apply_eq u s s.kind rfl a, if_neg na, if_pos hfa']
+    have hB := own_finalize u (own u s a).1 b (finFp_after u s a _ (hfa hf))
+    rw [ea, apply_eq u (own u s a).1.finalize s.kind (own_kind u s a) b, if_neg nb, hB]
+    simp only [c2]
+    cases hfb' : (fin s.kind b && !(own u s b).2)
+    · simp
+    · simp [finalize_idem]
+
+/-- **two independent `Set*` calls commute**; whether one of them raises does not depend on the other -/
+theorem apply_comm (u : Nat → R) (s : Cfg R) (a b : Op R) (h : Independent s.pl s.kind a b = true) :
+    (apply u (apply u s a).1 b).1 = (apply u (apply u s b).1 a).1 ∧
+    (apply u (apply u s a).1 b).2 = (apply u s b).2 ∧ (apply u (apply u s b).1 a).2 = (apply u s a).2 := by
+  have h' := h
+  simp only [Independent, Bool.and_eq_true] at h'
+  obtain ⟨⟨⟨⟨h1, h2⟩, h3⟩, h4⟩, h5⟩ := h'
+  have hown : OwnIndep a b = true := by simp [OwnIndep, h1, h2, h3]
+  have hown' := ownIndep_symm _ _ hown
+  have h4' : fin s.kind a = true → disj (finFp s.pl) (writes b ++ reads b) = true := by
+    intro hf; rw [if_pos hf] at h4; exact h4
+  have h5' : fin s.kind b = true → disj (finFp s.pl) (writes a ++ reads a) = true := by
+    intro hf; rw [if_pos hf] at h5; exact h5
+  cases hba : blocked s.kind a
+  case true =>
+    -- `a` is a "must be overwritten" stub
+    have e1 : apply u s a = (s, true) := by rw [apply_eq u s s.kind rfl a, if_pos hba]
+    have e2 : apply u (apply u s b).1 a = ((apply u s b).1, true) := by
+      rw [apply_eq u _ s.kind (apply_kind u s b) a, if_pos hba]
+    rw [e1, e2]
+    exact ⟨rfl, rfl, rfl⟩
+  case false =>
+    cases hbb : blocked s.kind b
+    case true =>
+      have e1 : apply u s b = (s, true) := by rw [apply_eq u s s.kind rfl b, if_pos hbb]
+      have e2 : apply u (apply u s a).1 b = ((apply u s a).1, true) := by
+        rw [apply_eq u _ s.kind (apply_kind u s a) b, if_pos hbb]
+      rw [e1, e2]
+      exact ⟨rfl, rfl, rfl⟩
+    case false =>
+      obtain ⟨f1, s1⟩ := apply_after u s a b hown h4' hba hbb
+      obtain ⟨f2, s2⟩ := apply_after u s b a hown' h5' hbb hba
+      obtain ⟨c1, _⟩ := own_comm u s a b hown
+      have g : ∀ op : Op R, blocked s.kind op = false → (apply u s op).2 = (own u s op).2 := by
+        intro op hb
+        rw [apply_eq u s s.kind rfl op, if_neg (by simp [hb])]
+        split <;> rfl
+      refine ⟨?_, by rw [f1, g b hbb], by rw [f2, g a hba]⟩
+      rw [s1, s2, c1]
+      simp only [or_comm]
+
+/-! ### permutations of a configuration phase -/
+
+/-- the states reachable from a solver of kind `k` whose "live Powell" flag was `pl` at the start:
+    the kind never changes and no `Set*` makes a solver live -/
+def Below (pl : Bool) (k : Kind) (t : Cfg R) : Prop := t.kind = k ∧ (t.pl = true → pl = true)
+
+theorem below_apply (u : Nat → R) (pl : Bool) (k : Kind) (t : Cfg R) (op : Op R) (h : Below pl k t) :
+    Below pl k (apply u t op).1 :=
+  ⟨by rw [apply_kind]; exact h.1, fun hp => h.2 (apply_pl u t op hp)⟩
+
+omit [Add R] [Sub R] [Mul R] [Neg R] [OfNat R 0] [OfNat R 1] [BEq R] [LT R] [DecidableLT R] in
+theorem independent_below (pl : Bool) (k : Kind) (t : Cfg R) (a b : Op R) (h : Below pl k t)
+    (hi : Independent pl k a b = true) : Independent t.pl t.kind a b = true := by
+  rw [h.1]
+  cases hp : t.pl
+  · cases pl
+    · exact hi
+    · exact independent_mono false k a b hi
+  · rw [h.2 hp] at hi; exact hi
+
+theorem cfgAfter_perm (u : Nat → R) (pl : Bool) (k : Kind) {l l' : List (Op R)} (hp : l.Perm l') :
+    ∀ t : Cfg R, Below pl k t → l.Pairwise (fun a b => Independent pl k a b = true) →
+      cfgAfter u t l = cfgAfter u t l' := by
+  induction hp with
+  | nil => intro t _ _; rfl
+  | cons x _ ih =>
+    intro t ht hpw
+    rw [List.pairwise_cons] at hpw
+    exact ih _ (below_apply u pl k t x ht) hpw.2
+  | swap x y l =>
+    intro t ht hpw
+    rw [List.pairwise_cons] at hpw
+    have hyx : Independent pl k y x = true := hpw.1 x (by simp)
+    have := (apply_comm u t y x (independent_below pl k t y x ht hyx)).1
+    show cfgAfter u (apply u (apply u t y).1 x).1 l = cfgAfter u (apply u (apply u t x).1 y).1 l
+    rw [this]
+  | trans h1 _ ih1 ih2 =>
+    intro t ht hpw
+    rw [ih1 t ht hpw]
+    exact ih2 t ht ((h1.pairwise_iff (fun h => independent_symm pl k _ _ h)).mp hpw)
+
+/-- whether a call raises does not depend on the independent calls made before it -/
+theorem flag_after_prefix (u : Nat → R) (pl : Bool) (k : Kind) (b : Op R) :
+    ∀ (pre : List (Op R)) (t : Cfg R), Below pl k t → (∀ a ∈ pre, Independent pl k a b = true) →
+      (apply u (cfgAfter u t pre) b).2 = (apply u t b).2 := by
+  intro pre
+  induction pre with
+  | nil => intro t _ _; rfl
+  | cons a pre ih =>
+    intro t ht hall
+    show (apply u (cfgAfter u (apply u t a).1 pre) b).2 = (apply u t b).2
+    rw [ih _ (below_apply u pl k t a ht) (fun a' ha' => hall a' (by simp [ha']))]
+    exact (apply_comm u t a b (independent_below pl k t a b ht (hall a (by simp)))).2.1
+
+theorem raisedAfter_eq (u : Nat → R) (pl : Bool) (k : Kind) :
+    ∀ (l : List (Op R)) (t : Cfg R), Below pl k t → l.Pairwise (fun a b => Independent pl k a b = true) →
+      ∀ (pre : List (Op R)), (∀ a ∈ pre, ∀ b ∈ l, Independent pl k a b = true) → ∀ t0 : Cfg R, Below pl k t0 →
+        t = cfgAfter u t0 pre → raisedAfter u t l = l.map (fun op => (apply u t0 op).2) := by
+  intro l
+  induction l with
+  | nil => intro _ _ _ _ _ _ _ _; rfl
+  | cons b l ih =>
+    intro t ht hpw pre hpre t0 ht0 het
+    rw [List.pairwise_cons] at hpw
+    show (apply u t b).2 :: raisedAfter u (apply u t b).1 l = (apply u t0 b).2 :: l.map _
+    congr 1
+    · rw [het]; exact flag_after_prefix u pl k b pre t0 ht0 (fun a ha => hpre a ha b (by simp))
+    · apply ih _ (below_apply u pl k t b ht) hpw.2 (pre ++ [b]) _ t0 ht0
+      · rw [het]; simp [cfgAfter]
+      · intro a ha c hc
+        rcases List.mem_append.mp ha with ha | ha
+        · exact hpre a ha c (by simp [hc])
+        · simp only [List.mem_singleton] at ha
+          subst ha
+          exact hpw.1 c hc
+
+/-- a call that is not a random-number consumer leaves the population and the random stream alone -/
+theorem apply_pop (u : Nat → R) (s : Cfg R) (op : Op R) (h : consumesRng op = false) :
+    (apply u s op).1.pop = s.pop := by
+  have ho : (own u s op).1.pop = s.pop := by
+    cases op <;> first | rfl | (simp [consumesRng] at h)
+  unfold apply
+  split
+  · rfl
+  · split
+    · exact ho
+    · exact ho
+
+theorem cfgAfter_pop (u : Nat → R) : ∀ (l : List (Op R)) (s : Cfg R), (∀ op ∈ l, consumesRng op = false) →
+    (cfgAfter u s l).pop = s.pop := by
+  intro l
+  induction l with
+  | nil => intro s _; rfl
+  | cons a l ih =>
+    intro s h
+    show (cfgAfter u (apply u s a).1 l).pop = s.pop
+    rw [ih _ (fun op hop => h op (by simp [hop])), apply_pop u s a (h a (by simp))]
 
 end MysticVerif.Config
